@@ -221,10 +221,12 @@ end Blocks
 
 /-- `tf_from_rest_partial`.  Two state-space systems (of any state dimensions) with the same direct
 term and the same Markov parameters `C A^j B` — in particular two realisations of one transfer
-function — produce the same outputs from rest for every input (discrete time).  Full statement
-(not proved here): a `TransferFunction` responds like the realisation `tf2ss` returns; that
-needs "realisations of the same transfer function have equal Markov parameters" (C03) and, for
-continuous time, the exponential. -/
+function — produce the same outputs from rest for every input (discrete time).  The full statement
+for discrete time is proved in Props/C06Real.lean: `markov_of_resp` (systems with the same transfer
+matrix have equal `D` and Markov parameters, over an infinite field), `realisations_from_rest`
+(hence equal outputs from rest), `tf_from_rest` / `tf2ss_from_rest` (any realisation of `num/den`,
+in particular the one `tf2ss` returns, responds with the convolution of the input with the long
+division of `num` by `den`).  Still open: continuous time (the exponential). -/
 theorem tf_from_rest_partial {σ' : Type*} [Fintype σ'] [DecidableEq σ] [DecidableEq σ']
     (G : SS σ ι o K) (G' : SS σ' ι o K) (hD : G.D = G'.D)
     (hM : ∀ j : ℕ, G.C * G.A ^ j * G.B = G'.C * G'.A ^ j * G'.B) (us : List (ι → K)) :
